@@ -572,6 +572,7 @@ func (s *sim) compareAt(pos int) {
 				c.Probe("engines_differ")
 			}
 			where := fmt.Sprintf("after the same %d log entries instance %d (%s) and %d (%s)", pos, a.idx, a.cfg.eng, b.idx, b.cfg.eng)
+			att, _ := s.attribution(a, b, pos)
 			d := diffDumps(logical[i], logical[j], func(item string) string {
 				if s.excused(a, b, item) {
 					return excusedClass
@@ -587,7 +588,7 @@ func (s *sim) compareAt(pos int) {
 				if abortItem(a, b, item) {
 					return keyAbort
 				}
-				return ""
+				return attItem(att, item)
 			})
 			if len(d[excusedClass]) > 0 {
 				c.Probe("difference_excused_local_deletion")
@@ -611,7 +612,7 @@ func (s *sim) compareAt(pos int) {
 				continue
 			}
 			pd := diffDumps(phys[i], phys[j], func(item string) string {
-				if s.hllPhys(item, pos) || abortPhys(a, b, item) {
+				if s.hllPhys(item, pos) || abortPhys(a, b, item) || attPhys(att, item) {
 					return excusedClass
 				}
 				for k := range clockFindings {
@@ -630,9 +631,9 @@ func (s *sim) compareAt(pos int) {
 	}
 }
 
-// knownReq: is what request r does on these two instances covered by the
-// relaxation of a known finding?
-func (s *sim) knownReq(a, b *inst, r *req) string {
+// directReq: is what request r does on these two instances directly covered
+// by the relaxation of a known finding?
+func (s *sim) directReq(a, b *inst, r *req) string {
 	if s.hllReq(a, b, r) {
 		return keyHLL
 	}
@@ -645,6 +646,101 @@ func (s *sim) knownReq(a, b *inst, r *req) string {
 		}
 	}
 	return ""
+}
+
+// attribution follows a known finding through the log: a request covered by
+// a relaxation (or touching a key an earlier such request may have written
+// differently) may write ALL its keys differently on the two instances (mset,
+// plset, multi-key del, the *mclear family, delete-table; under the syncer
+// type also the all-or-nothing conflict pre-check of a multi-key command).
+// Result: "class|table:key" -> finding key, and per request the finding key.
+func (s *sim) attribution(a, b *inst, upto int) (map[string]string, []string) {
+	att := map[string]string{}
+	per := make([]string, upto)
+	look := func(k string) string {
+		if f, ok := att[k]; ok {
+			return f
+		}
+		if strings.HasPrefix(k, clBit+"|") {
+			return att[clKV+k[len(clBit):]]
+		}
+		return ""
+	}
+	for i := 0; i < upto; i++ {
+		r := s.log[i]
+		f := s.directReq(a, b, r)
+		if f == "" {
+			for _, k := range r.keys {
+				if g := look(k); g != "" {
+					f = g
+					break
+				}
+			}
+		}
+		per[i] = f
+		if f != "" {
+			for _, k := range r.keys {
+				if _, ok := att[k]; !ok {
+					att[k] = f
+				}
+			}
+		}
+	}
+	return att, per
+}
+
+// attItem classifies a logical dump item through the attribution map.
+func attItem(att map[string]string, item string) string {
+	if len(att) == 0 {
+		return ""
+	}
+	p := strings.SplitN(item, "|", 4)
+	anyKey := func(pred func(cl, key string) bool) string {
+		best := ""
+		for k, f := range att {
+			i := strings.IndexByte(k, '|')
+			if pred(k[:i], k[i+1:]) && (best == "" || f < best) {
+				best = f
+			}
+		}
+		return best
+	}
+	switch p[0] {
+	case "table":
+		return anyKey(func(_, key string) bool { return tableOfItem(key) == p[1] })
+	case "tables":
+		return anyKey(func(string, string) bool { return true })
+	case "scan":
+		return anyKey(func(cl, key string) bool { return cl == p[1] && tableOfItem(key) >= p[2] })
+	case "exp":
+		return anyKey(func(cl, key string) bool { return sameSpace(cl, p[1]) && key == p[2] })
+	default:
+		return anyKey(func(cl, key string) bool { return sameSpace(cl, p[0]) && key == p[1] })
+	}
+}
+
+// attPhys: physical entries of an attributed key (by table and key name).
+func attPhys(att map[string]string, item string) bool {
+	if len(att) == 0 {
+		return false
+	}
+	raw, err := hex.DecodeString(strings.TrimPrefix(item, "phys|"))
+	if err != nil || len(raw) == 0 {
+		return false
+	}
+	rs := string(raw)
+	for k := range att {
+		key := k[strings.IndexByte(k, '|')+1:]
+		i := strings.IndexByte(key, ':')
+		if raw[0] == 10 {
+			if strings.Contains(rs, key[:i]) {
+				return true
+			}
+		} else if strings.Contains(rs, key[:i]) && strings.Contains(rs, key[i+1:]) {
+			return true
+		}
+	}
+	return false
 }
 
 func (s *sim) compareReplies() {
@@ -675,7 +771,8 @@ func (s *sim) compareReplies() {
 						continue
 					}
 				}
-				key := s.knownReq(a, b, r)
+				_, per := s.attribution(a, b, i+1)
+				key := per[i]
 				s.found("reply-differs", key, "request %d (%s, ts=%d) answered %s on instance %d and %s on instance %d", i, r.String(), r.ts, clip(ra), a.idx, clip(rb), b.idx)
 				if key == "" {
 					return
@@ -705,8 +802,8 @@ func (s *sim) checkDead() {
 			if a.applied >= d.panicTo {
 				key := ""
 				for i := d.panicFrom; i < d.panicTo; i++ {
-					if k := s.knownReq(d, a, s.log[i]); k != "" {
-						key = k
+					if _, per := s.attribution(d, a, i+1); per[i] != "" {
+						key = per[i]
 					}
 				}
 				s.found("panic-differs", key, "instance %d died applying request %d.. (%s), instance %d applied the same log up to %d without dying", d.idx, d.applied, d.dead, a.idx, a.applied)
